@@ -449,13 +449,40 @@ class FuncObject(Object, Callable):
         return None
 
 
+collecting = [0]  # attribute assignments of how many modules are being collected (SourceScope.assigns)
+
+
+def instance_table(func):
+    # type: (t.Callable[[t.Any], Attributes]) -> property
+    """cached_property for the attribute tables of an instance
+
+    A table computed while the assignments of a module are still being
+    collected has seen only a part of them: it serves the collection and is
+    not kept."""
+    name = func.__name__
+
+    def getter(self):
+        # type: (t.Any) -> Attributes
+        try:
+            return self.__dict__[name]  # type: ignore[no-any-return]
+        except KeyError:
+            pass
+        value = func(self)
+        if collecting[0]:
+            self.__dict__.pop(name, None)
+        else:
+            self.__dict__[name] = value
+        return value
+    return property(getter)
+
+
 class InstanceValue(Object):
     def __init__(self, ctx, cls):
         # type: (EvalCtx, ClassObject) -> None
         self.ctx = ctx
         self.cls = cls
 
-    @cached_property
+    @instance_table
     def _assigned(self):
         # type: () -> Attributes
         """Attributes assigned through self in the class and in its bases"""
@@ -472,7 +499,7 @@ class InstanceValue(Object):
             raise
         return attrs
 
-    @cached_property
+    @instance_table
     def _attrs(self):
         # type: () -> Attributes
         # python looks into the instance first, then into the classes
